@@ -18,6 +18,7 @@ type entry struct {
 	zset     map[string]float64
 	json     any
 	expireAt time.Time
+	bm       *sparseBits // typ "string" only: when set, the value is held as sparse bit pages and str is "" (cmd_prob.go)
 }
 
 // Dataset is the keyspace of one shard (shared by a master and its replicas).
@@ -61,6 +62,8 @@ func (d *Dataset) db(i int) map[string]*entry {
 	return m
 }
 
+// get looks a key up. The value of a string entry is read through entry.val (it may be held as sparse bit pages,
+// see cmd_prob.go), never through the str field directly.
 func (d *Dataset) get(sc *SrvConn, k string) *entry { return d.db(sc.Sess.DB)[k] }
 
 // Lookup returns the string value of a key in db 0 for oracles ("" and false when missing or not a string).
@@ -68,6 +71,12 @@ func (d *Dataset) Lookup(k string) (string, bool) {
 	e := d.db(0)[k]
 	if e == nil || e.typ != "string" {
 		return "", false
+	}
+	if e.bm != nil {
+		if e.bm.n > maxFlatten {
+			return "", false
+		}
+		return e.bm.flat(), true
 	}
 	return e.str, true
 }
